@@ -412,13 +412,16 @@ func Run(c *Case, wantPKShares bool) ([]MemberOut, string) {
 				if m.status != "ok" {
 					continue
 				}
-				rot := int((c.Ord + 3*uint64(r) + 5*uint64(ph)) % uint64(n))
 				idx := make([]int, len(wires))
 				for k := range idx {
 					idx[k] = k
 				}
 				sort.SliceStable(idx, func(a, b int) bool {
-					return (wires[idx[a]].author+rot)%n < (wires[idx[b]].author+rot)%n
+					ka, kb := AuthorKey(c, r, ph, wires[idx[a]].author), AuthorKey(c, r, ph, wires[idx[b]].author)
+					if ka != kb {
+						return ka < kb
+					}
+					return wires[idx[a]].author < wires[idx[b]].author
 				})
 				for _, k := range idx {
 					w := wires[k]
@@ -482,6 +485,20 @@ func Run(c *Case, wantPKShares bool) ([]MemberOut, string) {
 	}
 	sort.Strings(tl)
 	return outs, strings.Join(tl, "+")
+}
+
+// AuthorKey is the position key of an author in the delivery order of receiver r in phase ph:
+// ord < 1000 = rotation of the authors, otherwise a pseudo-random permutation per (receiver,
+// phase).  Every author's own messages keep their order (consistent broadcast).
+func AuthorKey(c *Case, r, ph, a int) uint64 {
+	n := uint64(c.N)
+	if c.Ord < 1000 {
+		return (uint64(a) + (c.Ord+3*uint64(r)+5*uint64(ph))%n) % n
+	}
+	v := new(big.Int).SetUint64(c.Ord + 1)
+	v.Mul(v, big.NewInt(int64(a+7*r+13*ph+1)))
+	v.Mul(v, big.NewInt(2654435761))
+	return v.Mod(v, big.NewInt(1000003)).Uint64()
 }
 
 func mkWire(author int, m net.TaggedMarshaler) wire {
